@@ -53,7 +53,7 @@ func vAlphaIndex(ch byte) int {
 	return idx
 }
 
-// verif: unwind=64 cover=valid,invalid bounds="every 43-byte text with at most 1 (quick) / 2 (thorough) CR/LF characters: accepted iff all characters are in the alphabet, and then the id is the 256 leading bits"
+// verif: unwind=64 budget_thorough_s=14400 cover=valid,invalid bounds="every 43-byte text with at most 1 (quick) / 2 (thorough) CR/LF characters: accepted iff all characters are in the alphabet, and then the id is the 256 leading bits"
 func VH_C17_peerIDStrictDecode() bool {
 	txt := vBytesN(43)
 	allValid := true
